@@ -168,16 +168,19 @@ class CallLog:
 
 
 def velocities(h, r, n, lo=None, hi=0.99):
-    """n wall velocities covering the three branches."""
+    """wall velocities covering the three branches: the critical ones (around the sound speed behind the wall, where
+    deflagrations turn into hybrids, and around the Jouguet velocity) are ALWAYS included; the rest fills up to n."""
     lo = max(h.vMin, 0.02) if lo is None else lo
     cs = math.sqrt(float(h.thermodynamics.csqLowT(h.Tnucl)))
-    pts = [lo * 1.02 + 1e-3, 0.5 * (lo + cs), cs * 0.98, cs * 1.02, 0.5 * (cs + h.vJ), h.vJ - 4e-3, h.vJ - 2e-3, h.vJ - 5e-4,
-           h.vJ + 2e-3, 0.5 * (h.vJ + hi), hi]
-    pts = [v for v in pts if lo < v <= hi]
-    while len(pts) < n:
-        pts.append(r.uniform(lo * 1.01 + 1e-3, hi))
-    pts = sorted(set(pts))
-    return sorted(r.sample(pts, n)) if n < len(pts) else pts
+    critical = [cs * 0.98, cs * 0.995, cs * 0.999, cs * 1.02, h.vJ - 4e-3, h.vJ - 2e-3, h.vJ - 5e-4, h.vJ + 2e-3]
+    other = [lo * 1.02 + 1e-3, 0.5 * (lo + cs), 0.5 * (cs + h.vJ), 0.5 * (h.vJ + hi), hi]
+    critical = [v for v in critical if lo < v <= hi]
+    other = [v for v in other if lo < v <= hi]
+    while len(critical) + len(other) < n:
+        other.append(r.uniform(lo * 1.01 + 1e-3, hi))
+    k = max(n - len(critical), 3)
+    other = other if k >= len(other) else r.sample(other, k)
+    return sorted(set(critical + other))
 
 
 # ---------------------------------------------------------------- findMatching decision logic (Model.Matching)
